@@ -164,6 +164,15 @@ pub fn drive_hashes_scaled(a: &Args, w: &Words, prefix: &str, budget: usize) {
             d.extend_from_slice(word);
             d.extend_from_slice(word);
             ev_hp(&mut sh, &mut rng, &d);
+            // the same extreme windows followed by zero bytes, 0xff bytes and a repeat of the first byte
+            for tail in [[0u8, 0, 0, 5], [0xff, 0xff, 0, 1], [word[0], 0, word[0], 0]] {
+                let mut d2 = vec![9, 8];
+                d2.extend_from_slice(word);
+                d2.extend_from_slice(&tail);
+                d2.extend_from_slice(word);
+                d2.push(0);
+                ev_hp(&mut sh, &mut rng, &d2);
+            }
         }
     }
     println!("STATS {{\"hashes\":{{\"bytes\":{},\"fnv_states\":{}}}}}", bytes, nstates);
